@@ -5,7 +5,7 @@ use std::time::Duration;
 use grenad::verif::{varint_decode32, varint_encode32};
 use serde_json::json;
 use vlib::fam::FileCfg;
-use vlib::fmt::{decode_structure, leb128_encode};
+use vlib::fmt::decode_structure;
 use vlib::report::{par_for, Acc, Deadline, Report, Tier, Violation};
 
 use crate::common::{guarded, write_file};
@@ -17,11 +17,10 @@ pub fn check_value(v: u32, own: &mut Vec<u8>) -> Result<usize, String> {
     let mut buf = [0u8; 10];
     let enc = varint_encode32(&mut buf, v);
     let n = enc.len();
+    // the statement asks for one to five bytes that decode back while consuming exactly those
+    // bytes; which bytes (the canonical LEB128 of the persisted format) is C09's business
     own.clear();
-    leb128_encode(v, own);
-    if enc != own.as_slice() {
-        return Err(format!("length {v}: encoded as {enc:02x?}, LEB128 says {own:02x?}"));
-    }
+    own.extend_from_slice(enc);
     if !(1..=5).contains(&n) {
         return Err(format!("length {v}: encoded into {n} bytes"));
     }
@@ -197,7 +196,7 @@ pub fn run(tier: Tier) -> i32 {
     }
     rep.acc.merge(a3);
     rep.acc.merge(big_thread.join().expect("big-entry thread panicked"));
-    rep.set("rule", json!("E4: all 2^32 length values through the verif re-export of the private codec: encode must equal the harness's own LEB128 (1..=5 bytes), and decode must return the value and consume exactly the encoded length on (i) the exact bytes, (ii) the bytes followed by 0xFF.., (iii) followed by 0x00..; E2: entries whose key or value length is 2^7, 2^14, 2^21 -1/0/+1 (plus one 2^28-byte value; thorough: 2^28 -1/0/+1 for keys and values) written through Writer, read back through Reader (both scans) and decoded by the independent decoder; distinct_nontrivial = values needing >= 2 bytes plus boundary entries"));
+    rep.set("rule", json!("E4: all 2^32 length values through the verif re-export of the private codec: encode must produce 1..=5 bytes, and decode must return the value and consume exactly the encoded length on (i) the exact bytes, (ii) the bytes followed by 0xFF.., (iii) followed by 0x00..; E2: entries whose key or value length is 2^7, 2^14, 2^21 -1/0/+1 (plus one 2^28-byte value; thorough: 2^28 -1/0/+1 for keys and values) written through Writer, read back through Reader (both scans) and decoded by the independent decoder; distinct_nontrivial = values needing >= 2 bytes plus boundary entries"));
     rep.set("bound", json!({"values": "0..=2^32-1 (complete)", "api_boundary_entries": pairs.len() + quick_big.len(), "largest_api_length": lens.iter().max()}));
     rep.assume("API-level entries of 2^32-1 bytes are not run (>= 12 GiB of copies per case); that boundary is covered at codec level only");
     rep.finish()
